@@ -139,6 +139,25 @@ def build():
          ensures=[E('item', '*r == old(value).val(id) && final(value).val(id) == *final(r)'),
                   E('only_own', '(forall|j: Index| #![trigger final(value).has(j)] final(value).has(j) == old(value).has(j)) && (forall|j: Index| #![trigger final(value).val(j)] j != id ==> final(value).val(j) == old(value).val(j))'),
                   E('events', 'final(value).log() == old(value).log() + old(value).ev_get_mut(id)', 'C12')])
+    # `Storage::entries()` and its lending member (every index; the item is the entry for that index): free functions, as above
+    EN = 'src/storage/entry.rs'
+    u.struct(EN, ['struct Entries'], rules=[('N8', r"<'a, 'b: 'a, T: 'a, D: 'a>", "<'a, 'b: 'a, 'd: 'a, T: Component>"), ('N8', r"Storage<'b, T, D>", "Storage<'b, T, &'d mut MaskedStorage<T>>")])
+    u.fn(EN, ["impl<'e, T, D> Storage<'e, T, D>", 'fn entries'], ret='r', props='C06 C04', key='Storage(&mut)::entries',
+         impl_header="impl<'e, 'd, T> Storage<'e, T, &'d mut MaskedStorage<T>> where T: Component,",
+         rules=[('N8', r"Entries<'a, 'e, T, D>", "Entries<'a, 'e, 'd, T>")],
+         ensures=[E('same', '*r.0 == *old(self) && *final(r.0) == *final(self)')])
+    ELH = "impl<'a, 'b: 'a, T: 'a, D: 'a> LendJoin for Entries<'a, 'b, T, D>"
+    u.fn(EN, [ELH, 'fn open'], ret='r', props='C06', free='entries_lend_open', key='lj_entries::open',
+         rules=[('N12', r'fn open\(self\)', "fn open<'a, 'b: 'a, 'd: 'a, T: Component>(self_: Entries<'a, 'b, 'd, T>)"),
+                ('N12', r'Self::Mask', 'BitSetAll'), ('N12', r'Self::Value', "&'a mut Storage<'b, T, &'d mut MaskedStorage<T>>"), ('N12', r'\bself\b', 'self_')],
+         hints=[('start', None, 'broadcast use axiom_all_u32;')],
+         ensures=[E('mask', 'forall|i: u32| r.0.bview().contains(i)'), E('same_storage', '*r.1 == *old(self_.0) && *final(r.1) == *final(self_.0)')])
+    u.fn(EN, [ELH, 'fn get'], ret='r', props='C06 C04', free='entries_lend_get', key='lj_entries::get',
+         rules=[('N12', r"fn get<'next>\(", "fn get<'a, 'b: 'a, 'd: 'a, 'next, T: Component>("), ('N12', r'Self::Value', "&'a mut Storage<'b, T, &'d mut MaskedStorage<T>>"),
+                ('N8', r"Self::Type<'next>", "StorageEntry<'next, 'b, 'd, T>")],
+         requires=[E('wf', 'old(value).data.wf()'), E('ents', 'ent_ok(old(value).entities)')],
+         ensures=[E('occupied', 'old(value).data@.dom().contains(id) ==> (r matches StorageEntry::Occupied(o) && o.id == id && *o.storage == **old(value) && *final(o.storage) == **final(value))'),
+                  E('vacant', '!old(value).data@.dom().contains(id) ==> (r matches StorageEntry::Vacant(v) && v.id == id && *v.storage == **old(value) && *final(v.storage) == **final(value))')])
     # BitAnd for a one-element tuple (the other arities are macro-generated: not under contract)
     BA = 'src/join/bit_and.rs'
     u.groups['bitand_1'] = dict(header='impl<A> BitAnd for (A,) where A: BitSetLike,', pre='    type Value = A;\n    spec fn and_view(&self) -> Set<u32> { self.0.bview() }\n', private=False)
